@@ -4,6 +4,7 @@
 import GeonumModel.Lemmas.AngleStep
 import GeonumModel.Spec.RealWitness
 import GeonumModel.Lemmas.Exact
+import GeonumModel.Lemmas.FloatMetric
 
 set_option linter.unusedSectionVars false
 set_option linter.unusedVariables false
@@ -141,6 +142,13 @@ theorem scale_spec {g : Geonum F} {f : F} (hm : Fin g.mag) (hf : Fin f) (ha : g.
     rw [hb1] at hw
     rw [hang]
     exact ⟨hmag, fun h => by linarith, fun _ => hw.1, hw.2.2⟩
+
+/-- (S/B) **the angle of a product in rounded arithmetic**: the float totals add, up to one snap and one rounding, and the magnitude is
+    the one rounded product — so products are associative and commutative in their totals up to that slack, for every blade history -/
+theorem mul_total_float {a b : Geonum F} (ha : a.angle.Inv) (hb : b.angle.Inv) :
+    (a.mul b).mag = fmul a.mag b.mag ∧
+    ∃ δ : ℝ, |δ| < val (e10 : F) + 1 / 10 ^ 15 ∧ Angle.Tq (a.mul b).angle = Angle.Tq a.angle + Angle.Tq b.angle + δ :=
+  Geonum.mul_total_float ha hb
 
 end S
 
